@@ -2876,6 +2876,8 @@ class RedunBackendDb(RedunBackend):
             )
             for key, value in tags
         ]
+        # The same key-value pair may be listed more than once: keep one row per distinct tag.
+        tag_rows = list({tag_row.tag_hash: tag_row for tag_row in tag_rows}.values())
 
         if new:
             # Here, we force the tags to be current by walking down the
@@ -2961,8 +2963,12 @@ class RedunBackendDb(RedunBackend):
         """
         assert self.session
 
+        # Bind the value as JSON explicitly: a bare None would be rendered as SQL NULL (which equals
+        # nothing) instead of JSON null. Without any condition nothing matches (an empty or_() would
+        # match every tag of the entity).
         conditions = [
-            and_(Tag.key == key, Tag.value == sa_cast(value, JSON)) for key, value in tags
+            and_(Tag.key == key, Tag.value == sa_cast(sa.literal(value, JSON), JSON))
+            for key, value in tags
         ]
         if keys:
             conditions.append(Tag.key.in_(keys))
@@ -2970,7 +2976,7 @@ class RedunBackendDb(RedunBackend):
         parents = [
             tag_hash
             for (tag_hash,) in self.session.query(Tag.tag_hash).filter(
-                Tag.is_current.is_(True), Tag.entity_id == entity_id, or_(*conditions)
+                Tag.is_current.is_(True), Tag.entity_id == entity_id, or_(sa.false(), *conditions)
             )
         ]
 
